@@ -20,9 +20,68 @@ def gen_walk(r, root, plies, nest_prob=0.35, queries_in_nest=0.3, nest_mode="u")
     return ops
 
 
+def pin_family(r, n):
+    """Sparse positions in which a piece of the side to move stands between its king and an enemy line piece, for
+    every king square, direction, distance of the shield and of the pinner, kind of shield and kind of pinner, both
+    colours — the geometry the legality shortcuts are about. `n` of them, drawn by the seeded generator (all of them
+    are few ten thousand; the thorough tier takes a large sample). Positions the rules call insane (the side not to
+    move in check) are dropped later by the caller through `spec_sane`."""
+    out = []
+    dirs = [(1, 0), (-1, 0), (0, 1), (0, -1), (1, 1), (1, -1), (-1, 1), (-1, -1)]
+    tries = 0
+    while len(out) < n and tries < 40 * n:
+        tries += 1
+        kr, kc = r.randrange(8), r.randrange(8)
+        dr, dc = r.choice(dirs)
+        k = r.randint(1, 6)
+        j = r.randint(k + 1, 7)
+        sr, sc, pr, pc_ = kr + k * dr, kc + k * dc, kr + j * dr, kc + j * dc
+        if not (0 <= pr < 8 and 0 <= pc_ < 8):
+            continue
+        shield = r.choice("QRBNPPQR")
+        if shield == "P" and sr in (0, 7):
+            continue
+        pinner = r.choice(["q", "r" if 0 in (dr, dc) else "b"])
+        board = {(kr, kc): "K", (sr, sc): shield, (pr, pc_): pinner}
+        # the enemy king: far from the own king, not on the line, first free square of a shuffled corner/edge list
+        spots = [(7, 7), (7, 0), (0, 0), (0, 7), (7, 3), (0, 4), (3, 7), (4, 0)]
+        r.shuffle(spots)
+        ek = next((s for s in spots if s not in board and max(abs(s[0] - kr), abs(s[1] - kc)) > 1), None)
+        if ek is None:
+            continue
+        board[ek] = "k"
+        # sometimes a second enemy man next to the target squares (captures off the line), sometimes an own blocker
+        if r.random() < 0.5:
+            x = (r.randrange(1, 7), r.randrange(8))
+            if x not in board:
+                board[x] = r.choice("pnbr")
+        white_to_move = r.random() < 0.5
+        rows = []
+        for row in range(7, -1, -1):
+            s, e = "", 0
+            for col in range(8):
+                ch = board.get((row, col)) if white_to_move else None
+                if not white_to_move:      # colour mirror: flip the board vertically and swap the colours
+                    ch = board.get((7 - row, col))
+                    ch = ch.swapcase() if ch else None
+                if ch:
+                    s += (str(e) if e else "") + ch
+                    e = 0
+                else:
+                    e += 1
+            rows.append(s + (str(e) if e else ""))
+        out.append("/".join(rows) + (" w" if white_to_move else " b") + " - - 0 1")
+    return out
+
+
 def gen_cases(seed, salt, n_cases, plies):
     r = core.rng(seed, salt)
     cases = []
+    if salt in ("C01", "C03"):
+        # the pin family: the lists at the root, one nested push/take-back of every kind, the lists again
+        for f in pin_family(core.rng(seed, salt + "pins"), 150 if n_cases < 1000 else 6000):
+            cases.append(["new " + f, "obs", "moves c", "obs", "moves u", "obs", "push u %d" % r.randrange(1 << 20), "obs",
+                          "moves c", "obs", "undo", "obs", "moves c", "obs", "moves u", "obs"])
     mode = "mix" if salt in ("C02", "C11") else "u"
     for i in range(n_cases):
         root = roots.ALL[i % len(roots.ALL)] if i < 2 * len(roots.ALL) else r.choice(roots.ALL)
